@@ -111,7 +111,7 @@ class Ctor(Ex):  # Some(e), Dual(e), (e1, e2) with name None
         vals = [a.ev(env) for a in s.args]
         if s.name is None:
             return tuple(vals)
-        return TS(s.name, *vals)
+        return TS(s.name.split("::")[-1], *vals)
 
     def vars(s):
         r = set()
@@ -943,6 +943,9 @@ def ref_aggregate(name, items):
         init, step, fin = False, (lambda s, it: True), (lambda s: [] if s else [()])
     elif name == "wsum":
         init, step, fin = 0, (lambda s, it: s + 3 * it[0] + it[1]), (lambda s: [s])
+    elif name == "ends":
+        init, step, fin = None, (lambda s, it: (x0(it), x0(it)) if s is None else (min(s[0], x0(it)), max(s[1], x0(it)))), \
+            (lambda s: [] if s is None else ([s[0]] if s[0] == s[1] else [s[0], s[1]]))
     else:
         raise Unsupported("aggregator " + name)
     states = {init: True}
